@@ -45,3 +45,4 @@ int comp_pitch();
 int comp_synth();
 int comp_audio();
 int comp_api();
+int comp_iso();
